@@ -17,7 +17,17 @@
 //     uploads; far more data is on offer than the bound allows, the transfer is cut after ~2 s:
 //     same one-sided bound, and what arrived is a prefix of what was sent (the model's Conn waits
 //     for its tokens whatever deadline is armed: c20_wait_ignores_deadline; a wait that gives up
-//     breaks the bound: c20_unwaited_call_witness).
+//     breaks the bound: c20_unwaited_call_witness);
+//   - "duplex" (duplex.go): one connection with both limits set carrying both directions at once
+//     (ratelimit.NewListener, CONNECT tunnel): while the slow direction sits in its limiter's wait a
+//     transfer in the other direction is timed against a control run with the slow direction idle —
+//     a LOWER bound, relative and confirmed by repetition (the model's connection has two independent
+//     wait queues: c20_progress_independent; a lock held across the wait: c20_shared_mutex_witness);
+//   - "xfer" with close_at_ms (lifecycle cases): the listener is closed (ratelimit.Listener.Close) resp.
+//     the proxy's graceful shutdown starts while transfers of burst + ≥ 3 s of rate are in flight; the
+//     same bound over the whole transfer (the model's wait takes the state of its context as an input
+//     and Conn's context is never done: c20_bound_survives_listener_close; a context that Close cancels:
+//     c20_cancelled_context_witness).
 package c20
 
 import (
@@ -28,6 +38,7 @@ import (
 	"reflect"
 	"strconv"
 	"strings"
+	"sync"
 	"time"
 	"unsafe"
 
@@ -80,6 +91,11 @@ type xferCase struct {
 	DeadlineAPI    string `json:"deadline_api,omitempty"`     // "rw" = SetWriteDeadline / SetReadDeadline, "both" = SetDeadline
 	WriteTimeoutMs int    `json:"write_timeout_ms,omitempty"` // proxy modes: HTTPProxyConfig.WriteTimeout (deadline on the whole response)
 	ReadTimeoutMs  int    `json:"read_timeout_ms,omitempty"`  // proxy modes: HTTPProxyConfig.ReadTimeout (deadline on the whole request; stays armed in a tunnel)
+	// lifecycle cases: while the transfers are in flight (every connection is moving data and CloseAtMs ms have
+	// passed) the listener is closed (listener mode: ratelimit.Listener.Close) resp. the graceful shutdown is
+	// started (proxy modes: Run's context is cancelled, --shutdown-timeout far beyond the transfer); the
+	// transfers go on over the accepted connections and the same bound is judged on the whole of them.
+	CloseAtMs int `json:"close_at_ms,omitempty"`
 }
 
 // timed = a case in which deadlines are armed on the rate-limited connections.
@@ -563,7 +579,13 @@ func Run(ctx *core.Ctx) {
 		"cumulative bytes by every observation time t ≤ B + k·w + R·t, unthrottled direction < 1.5 s, hashes equal; non-trivial = some direction throttled. " +
 		"(d) the same bound with deadlines armed on the rate-limited connections: 8-32 connections of one ratelimit.NewListener (and a single one with 256 KiB calls) moving 32 KiB pieces at 256 KiB/s-1 MiB/s for ~2 s, " +
 		"SetWriteDeadline / SetReadDeadline / SetDeadline 200-400 ms ahead re-armed before every call; the full proxy with WriteTimeout (24-32 concurrent downloads) and ReadTimeout (8-16 concurrent uploads; tunnels in the thorough tier); " +
-		"the payload on offer exceeds the bound by 16 MiB, the transfer is cut after ~2 s, what arrived is a prefix of what was sent. distinct = distinct canonical inputs")
+		"the payload on offer exceeds the bound by 16 MiB, the transfer is cut after ~2 s, what arrived is a prefix of what was sent. " +
+		"(e) full-duplex cases (always non-trivial: both limits set): one connection of ratelimit.NewListener / one CONNECT tunnel through the full proxy, 64 KiB/s against 1 GiB/s in both orders and moderate pairs (256 KiB/s-2 MiB/s against 8-64 MiB/s); " +
+		"the slow direction has used up its burst and sits in its limiter's wait while 10-14 MiB (or burst + 0.4-0.8 s of rate) are timed in the other direction against a control run with the slow direction idle: " +
+		"allowed = the model's own-limit time + 6 × the control's excess + 400 ms, a shortfall must repeat in 3 attempts; hashes equal. " +
+		"(f) lifecycle cases: transfers of burst + ≥ 3 s of rate in flight when ratelimit.Listener.Close is called (1-3 accepted connections) resp. the graceful shutdown of forwarder.HTTPProxy starts " +
+		"(Run's context cancelled 300-700 ms after the start, once every connection is moving data; shutdown timeout 10 min; downloads + uploads, tunnels): the bound of (c) over the whole transfer, " +
+		"single-connection call trace against the model's history with the lifecycle event in place. distinct = distinct canonical inputs")
 	ctx.Assume("golang.org/x/time/rate v0.12.0 is trusted; its reserve arithmetic is the modelled fact (float64 there, exact integers in the model; compared ±1 µs)")
 	ctx.Assume("wall-clock behaviour (timers, scheduler, kernel socket buffers) is sampled, not proved: only one-sided bounds are asserted; the model treats a call's I/O as atomic at one instant and calls as reaching the limiter in time order")
 	ctx.Assume("jitter: concurrent WaitN callers reach the bucket with time stamps out of order and x/time/rate credits every backward step twice (c20_throughput_bound_jitter_partial states the bound with that term); it cannot be observed from outside, the wall-clock bound allows 20 ms + 3 % of the elapsed time for it")
@@ -639,8 +661,14 @@ func Run(ctx *core.Ctx) {
 		}
 	}
 
-	// (c) wall clock
-	runXfers(ctx, genXfers(ctx))
+	// (c) wall clock; (e) the full-duplex cases run beside them
+	xfers := genXfers(ctx)
+	duplex := genDuplex(ctx, ctx.Rng.Sub())
+	var dwg sync.WaitGroup
+	dwg.Add(1)
+	go func() { defer dwg.Done(); runDuplex(ctx, duplex) }()
+	runXfers(ctx, xfers)
+	dwg.Wait()
 }
 
 func Replay(ctx *core.Ctx, raw json.RawMessage) {
@@ -664,6 +692,10 @@ func Replay(ctx *core.Ctx, raw json.RawMessage) {
 		var c xferCase
 		json.Unmarshal(raw, &c)
 		checkXfer(ctx, c)
+	case "duplex":
+		var c duplexCase
+		json.Unmarshal(raw, &c)
+		checkDuplex(ctx, c)
 	default:
 		core.Fatalf("C20: unknown case kind %q", k.Kind)
 	}
